@@ -324,7 +324,12 @@ def write_yaml(text, name):
 
 
 def toy_gene(genome, s19, s38, seed, pseudogene=True, indels=True, tag="toy"):
-    text, info = gen_reads.toy_yaml(s19, s38, seed=seed, pseudogene=pseudogene, indels=indels)
+    # besides the contiguous multi-base substitutions of the toy gene: two GAPPED ones (like CYP2D6 C.C>G.T), one
+    # function-altering and one neutral -- the re-added reference observations of a merge must go to the right sites
+    text, info = gen_reads.toy_yaml(
+        s19, s38, seed=seed, pseudogene=pseudogene, indels=indels,
+        patches=[(258, "GACTCA"), (318, "TAGCGA")],
+        extra_alleles={"9.001": [(260, "C.C>G.T", "rs260", "functional")], "1.004": [(320, "G.G>A.C", "rs320", None)]})
     path = write_yaml(text, f"{tag}_{genome}_{s19}{s38}_{seed}_{int(pseudogene)}{int(indels)}.yml")
     return gen_reads.load_gene(path, genome), text, path
 
